@@ -111,6 +111,7 @@ struct State {
     max_parked: usize,
     signal: Option<Sender<Signal>>,
     log_events: bool,
+    last_event: std::time::Instant,
 }
 
 pub struct Ctl {
@@ -175,6 +176,7 @@ impl Ctl {
                 max_parked: 0,
                 signal: None,
                 log_events: true,
+                last_event: std::time::Instant::now(),
             }),
             cv: Condvar::new(),
         })
@@ -206,6 +208,7 @@ impl Ctl {
         s.max_parked = 0;
         s.signal = Some(signal);
         s.log_events = log_events;
+        s.last_event = std::time::Instant::now();
     }
 
     /// Collect what the run produced
@@ -228,6 +231,27 @@ impl Ctl {
         }
     }
 
+    /// Bounded-progress predicate for the shutdown phase: the coordinator left its loop, tasks are
+    /// still in flight, every one of them that occupies a worker is *inside the channel send*
+    /// (between `result_ready` and the end of the closure), and no hook event at all has been seen
+    /// for `quiet`. With an unbounded channel that state lasts microseconds; if it persists, the
+    /// workers are blocked in `send` while `Drop` joins the pool: the run can never return.
+    pub fn stuck_in_send(&self, quiet: std::time::Duration) -> bool {
+        let s = lock(&self.st);
+        if !s.run_ended || Self::in_flight(&s) == 0 || s.last_event.elapsed() < quiet {
+            return false;
+        }
+        let mut sending = 0;
+        for t in &s.tasks {
+            match t.phase {
+                Phase::Sending => sending += 1,
+                Phase::Queued | Phase::Ended => {}
+                _ => return false,
+            }
+        }
+        sending > 0
+    }
+
     /// Open every gate (used when some thread panics, so that `Drop`'s join cannot block)
     pub fn open_gates(&self) {
         let mut s = lock(&self.st);
@@ -236,6 +260,7 @@ impl Ctl {
     }
 
     fn ev(s: &mut State, e: Event) {
+        s.last_event = std::time::Instant::now();
         if s.log_events {
             s.events.push(e);
         }
@@ -483,6 +508,7 @@ impl Controller for Ctl {
             Self::park_forever();
         }
         s.tasks[i].phase = Phase::Sending;
+        s.last_event = std::time::Instant::now();
         self.delay(s);
     }
 
